@@ -93,6 +93,11 @@ class Snapshot:
 
 
 class ScriptSnapshot(Snapshot):
+    def start_snapshot(self):
+        # The captured values are raw, so the script has to say so.
+        super().start_snapshot()
+        self.append('units raw\n')
+
     def setting(self, reg, value):
         self.append('{} {:.0f} '.format(reg.name.lower(), value))
 
